@@ -8,6 +8,12 @@
 (*                 small numeric input in thousandths or NoneV             *)
 (*  round          inp / out = "f" values (thousandths), name = method     *)
 (*  filesizeformat inp = I(bytes), out = S(text)                           *)
+(*  urlencode      inp = S(text) | an int / bool / none / "f" float scalar |*)
+(*                 D / L of pairs whose keys and values are such values    *)
+(* Every record is validated on its own: a contract is a function of the   *)
+(* input and the arguments alone, so a result that depends on what the     *)
+(* process did before (the harness visits ==-equal values of different     *)
+(* type one after the other) is rejected at the record where it shows.     *)
 (***************************************************************************)
 EXTENDS StrFilters, FTrace
 
@@ -30,6 +36,7 @@ ExpectedText(r) ==
       [] r.f = "format" -> S(Format(Txt(r), <<StrOf(A(r).arg)>>))
       [] r.f = "striptags" -> S(StripTags(Txt(r)))
       [] r.f = "urlencode" -> S(IF IsStr(r.inp) THEN UrlQuote(Txt(r))
+                                ELSE IF IsScalarV(r.inp) THEN UrlQuote(UrlTextOf(r.inp))
                                 ELSE IF r.inp.t = "d" THEN UrlEncodePairs(r.inp.v)
                                 ELSE UrlEncodePairs([k \in 1..Len(r.inp.v) |-> r.inp.v[k].v]))
 
